@@ -40,7 +40,8 @@ REQUIRED = ['ref_codec_rfc_vectors_ok', 'server_mode_case', 'client_mode_case',
             'ping_payload_125', 'pong_decoded_from_codec', 'written_len_7bit', 'written_len_16bit', 'written_len_64bit',
             'written_masked_frame', 'written_unmasked_frame', 'peer_close_then_frames_same_read', 'peer_close_then_frames_later_read',
             'write_after_peer_close', 'write_after_local_close', 'frames_after_local_close', 'close_frame_written_by_codec',
-            'client_constructor_data', 'two_sockets_interleaved', 'message_after_fragmented_message', 'codec_created_by_dispatcher_handshake', 'codec_created_by_client_handshake', 'frames_in_the_same_read_as_the_101_response']
+            'client_constructor_data', 'two_sockets_interleaved', 'message_after_fragmented_message', 'codec_created_by_dispatcher_handshake', 'codec_created_by_client_handshake', 'frames_in_the_same_read_as_the_101_response',
+            'message_written_under_a_chosen_masking_key', 'big_message_whose_masked_form_begins_with_zero_bytes']
 REQUIRED_OBLIGATIONS = ['DECODE', 'ENCODE', 'PING_PONG', 'CTRL_IN_FRAGMENTED', 'AFTER_CLOSE_DELIVERY', 'AFTER_CLOSE_SEND']
 WORKER_TIMEOUT = {'quick': 300, 'thorough': 1500}
 
@@ -80,6 +81,28 @@ def _gen_text(n, rng):
         out.append(rng.choice(_CHARS[w]))
         left -= w
     return ''.join(out).encode('utf-8')
+
+
+KEY_KINDS = ('zero', 'ones', 'same1', 'same2', 'same4', 'inv1')
+
+
+def chosen_key(kind, data):
+    """4-byte masking key related to the payload bytes: equal to its first 1/2/4 bytes (the masked payload then begins with zero bytes), all
+    zero (masking is the identity), all ones, or the complement of the first byte (masked payload begins with 0xff)."""
+    head = (bytes(data[:4]) + b'\x5a\xa5\x3c\xc3')[:4]
+    if kind == 'zero':
+        return b'\x00\x00\x00\x00'
+    if kind == 'ones':
+        return b'\xff\xff\xff\xff'
+    if kind == 'same1':
+        return head[:1] + bytes(b ^ 0x55 for b in head[1:])
+    if kind == 'same2':
+        return head[:2] + bytes(b ^ 0x55 for b in head[2:])
+    if kind == 'same4':
+        return head
+    if kind == 'inv1':
+        return bytes([head[0] ^ 0xff]) + head[1:]
+    raise ValueError(kind)
 
 
 def payload_of(pspec):
@@ -285,8 +308,19 @@ def execute(case, lay):
                     w.inject(read(socks[ci], chunk) if server else read(chunk))
                 elif st[0] == 'write':
                     typ, data = payload_of(st[2])
+                    key = chosen_key(st[3], data) if len(st) > 3 and st[3] is not None else None
                     data = data.decode('utf-8') if typ == 'text' else data
-                    w.inject(write(socks[ci], data) if server else write(data), 'ws')
+                    if key is None:
+                        w.inject(write(socks[ci], data) if server else write(data), 'ws')
+                    else:
+                        # "every masking key": the system's random source hands out a chosen key while this message is written
+                        import os as _os
+                        real = _os.urandom
+                        _os.urandom = lambda n, _k=key: (_k * (n // 4 + 1))[:n]
+                        try:
+                            w.inject(write(socks[ci], data) if server else write(data), 'ws')
+                        finally:
+                            _os.urandom = real
                 elif st[0] == 'close':
                     w.inject(close(socks[ci]) if server else close(), 'ws')
                 else:
@@ -564,6 +598,10 @@ def features(case, lay, tl, obs):
         for si, st in enumerate(case['steps']):
             if st[1] != ci or st[0] != 'write':
                 continue
+            if len(st) > 3 and st[3] is not None and case['mode'] == 'client':
+                c['message_written_under_a_chosen_masking_key'] += 1
+                if payload_of(st[2])[1] and len(payload_of(st[2])[1]) >= 65536 and st[3].startswith('same'):
+                    c['big_message_whose_masked_form_begins_with_zero_bytes'] += 1
             if t['peer_close_step'] is not None and si > t['peer_close_step']:
                 c['write_after_peer_close'] += 1
             if t['local_close'] is not None and si > t['local_close']:
@@ -574,7 +612,10 @@ def features(case, lay, tl, obs):
             view, oframes, pending = R.observe(b''.join(d for d, _ in obs[ci]['out']), expect_masked=case['mode'] == 'client')
             if any(op == R.OP_CLOSE for op, _ in view.wrong_masking):
                 c['observed_close_frame_with_wrong_masking_for_role'] += 1
+            chosen = {chosen_key(st[3], payload_of(st[2])[1]) for st in case['steps'] if st[0] == 'write' and st[1] == ci and len(st) > 3 and st[3] is not None}
             for f in oframes:
+                if f.masked and f.key is not None and bytes(f.key) in chosen:
+                    c['chosen_masking_key_seen_on_the_wire'] += 1
                 if f.opcode in R.DATA_OPCODES:
                     c[{0: 'written_len_7bit', 2: 'written_len_16bit', 8: 'written_len_64bit'}[f.ext]] += 1
                     c['written_masked_frame' if f.masked else 'written_unmasked_frame'] += 1
@@ -716,6 +757,12 @@ def corpus():
         cases.append(one(mode, [msg('text', 40, 2, splits=[10, 20], ctl=[[0, 'ping', b'PING'], [1, 'ping', b'']], mask=rm), msg('text', 4, 2, mask=rm)],
                          name='ping-inside-fragmented'))
         cases.append(one(mode, [msg('bin', 20, 2, splits=[0, 10], ctl=[[0, 'ping', b'first-fragment-empty']], mask=rm)], name='ping-after-empty-fragment'))
+        # written with chosen masking keys (client role): every length form, text and binary
+        if mode == 'client':
+            for n in (1, 4, 125, 126, 300, 65535, 65536, 65541, 70001):
+                for typ in ('bin', 'text'):
+                    cases.append(one(mode, [msg('bin', 2, 1, mask=rm)], [st for kk in KEY_KINDS for st in (['write', 0, [typ, n, 7], kk], ['write', 0, ['bin', 3, 1]])] + [['feed', 0, ALL]],
+                                     name='chosen-keys-%d-%s' % (n, typ)))
         # 4. cuts at harmless offsets of the three length forms (mask, header/payload border, payload, frame border)
         for n in (5, 126, 65536):
             s, frames, _ = layout({'items': [msg('text', n, 3, mask=rm), msg('bin', 2, 1, mask=rm)]})
@@ -866,7 +913,10 @@ def gen_case(rng, big=0.0):
     for ci in range(nconn):
         for _ in range(rng.choice((0, 1, 1, 2, 3))):
             n = rng.choice(BIG) if rng.random() < big else rng.choice(SMALL + [rng.randint(0, 400)])
-            extra.append(['write', ci, [rng.choice(('text', 'bin')), n, rng.randrange(1 << 16)]])
+            st = ['write', ci, [rng.choice(('text', 'bin')), n, rng.randrange(1 << 16)]]
+            if mode == 'client' and rng.random() < 0.4:
+                st.append(rng.choice(KEY_KINDS))
+            extra.append(st)
         if rng.random() < 0.2:
             extra.append(['close', ci])
     for st in extra:
